@@ -98,6 +98,37 @@ theorem funcHyp_sound (D : List Name) (p : ABlock) (O : List Name) (h : funcHyp 
   simp only [funcHyp, Bool.and_eq_true] at h
   exact ⟨liveConsistent_sound p O h.1.1.1, declB_sound p h.1.1.2, defB_sound D p h.1.2, h.2⟩
 
+/-- A consistent liveness annotation is outside the finding class `for_target_live_across_zero_trip`. -/
+theorem subB_contains {A B : List Name} (h : A ⊆ B) {x : Name} (hx : A.contains x = true) : B.contains x = true := by
+  have : x ∈ A := by simpa using hx
+  simpa using h this
+
+mutual
+theorem live_not_zeroTripS : ∀ (s : AStmt), LiveS s → forTargetZeroTripS s = false
+  | .assign .., _ => rfl
+  | .expr .., _ => rfl
+  | .pass .., _ => rfl
+  | .ret .., _ => rfl
+  | .raise .., _ => rfl
+  | .ifS i c t e, h => by
+      simp only [LiveS] at h
+      simp [forTargetZeroTripS, live_not_zeroTripB t _ h.2.2.2.1, live_not_zeroTripB e _ h.2.2.2.2]
+  | .whileS i c b, h => by
+      simp only [LiveS] at h
+      simp [forTargetZeroTripS, live_not_zeroTripB b _ h.2.2.2]
+  | .forS i x it extra b, h => by
+      simp only [LiveS] at h
+      simp only [forTargetZeroTripS, live_not_zeroTripB b _ h.2.2.2.2, Bool.or_false]
+      cases hc : i.liveOut.contains x with
+      | false => rfl
+      | true => simp; exact h.2.2.1 (by simpa using hc)
+theorem live_not_zeroTripB : ∀ (b : List AStmt) (O : List Name), LiveB b O → forTargetZeroTripB b = false
+  | [], _, _ => rfl
+  | s :: r, O, h => by
+      simp only [LiveB] at h
+      simp [forTargetZeroTripB, live_not_zeroTripS s h.1, live_not_zeroTripB r O h.2.2]
+end
+
 theorem nodupB_sound : ∀ (l : List Name), nodupB l = true → l.Nodup
   | [], _ => List.nodup_nil
   | x :: xs, h => by
